@@ -1,2 +1,4 @@
 import Gaftools.Props.TieA2
+import Gaftools.Props.TieA9
 #print axioms Gaftools.TieA.finishScaffold_gen
+#print axioms Gaftools.TieA.biccsFrom_gen
